@@ -166,7 +166,7 @@ partial def stepCodec (st : TmplSt) (cs : CodecSt) (toks : List String) : Option
       | .error .fuel => some (st, cs, "diverge")
       | .error _ => some (st, { cs with decoded := #[] }, "null")
       | .ok t =>
-        match decodeDataB T defaultFuel t enf nsub (flag &&& 64 ≠ 0) (4 + bytes.length) bytes fr to with
+        match decodeDataC T defaultFuel t enf nsub (flag &&& 64 ≠ 0) (4 + bytes.length) bytes fr to with
         | .error .fuel => some (st, cs, "diverge")
         | .error .abort => some (st, cs, "abort")
         | .error .null => some (st, cs, "crash")
@@ -232,7 +232,7 @@ partial def stepCodec (st : TmplSt) (cs : CodecSt) (toks : List String) : Option
         | .error .fuel => some (st, cs, "diverge")
         | .error _ => some (st, { cs with decoded := #[], decTmpl := none }, pre ++ "null")
         | .ok t =>
-          match decodeDataB T defaultFuel t .warnAllow m.nSubsets (m.s3Flag &&& 64 ≠ 0) m.s4Len m.s4Data 0 0 with
+          match decodeDataC T defaultFuel t .warnAllow m.nSubsets (m.s3Flag &&& 64 ≠ 0) m.s4Len m.s4Data 0 0 with
           | .error .fuel => some (st, cs, "diverge")
           | .error .abort => some (st, cs, "abort")
           | .error .null => some (st, cs, "crash")
